@@ -119,6 +119,12 @@ def cases(draw):
             cl = "neighbours"
         if d <= 4:
             flag = draw(st.sampled_from([None, True, False]))
+        elif draw(st.integers(0, 3)) == 0:
+            # drafts 6/7: the inclusive and the exclusive bound are independent keywords; one of the others stands
+            # next to the keyword under test (its own errors are judged for themselves)
+            others = [k for k in ("minimum", "maximum", "exclusiveMinimum", "exclusiveMaximum") if k != kw]
+            comp = {"keyword": draw(st.sampled_from(others)), "bound": draw(st.one_of(numbers, st.sampled_from([0, 1, -1, 0.0, 5e-324])))}
+            return {"draft": d, "keyword": kw, "instance": x, "bound": b, "flag": None, "class": cl, "companion": comp}
     return {"draft": d, "keyword": kw, "instance": x, "bound": b, "flag": flag, "class": cl}
 
 
@@ -135,11 +141,19 @@ def expected(d, kw, x, b, flag):
     return (fx / fb).denominator == 1
 
 
-def one(res, d, kw, x, b, flag, cl):
+def one(res, d, kw, x, b, flag, cl, comp=None):
     cls = impl.CLS[d]
     schema = {kw: b}
     if flag is not None and d <= 4:
         schema["exclusiveMinimum" if kw == "minimum" else "exclusiveMaximum"] = flag
+    if comp is not None:
+        ck, cb = comp.get("keyword"), comp.get("bound")
+        if d < 6 or ck == kw or ck not in ("minimum", "maximum", "exclusiveMinimum", "exclusiveMaximum") or isinstance(cb, bool) \
+                or not isinstance(cb, (int, float)) or (isinstance(cb, float) and not math.isfinite(cb)):
+            res.excluded = "malformed-companion"
+            return
+        schema = dict([(ck, cb), (kw, b)] if (cb > 0) else [(kw, b), (ck, cb)])      # both member orders occur
+        res.labels.append("companion")
     try:
         cls.check_schema(schema)
     except impl.exceptions.SchemaError:
@@ -159,6 +173,16 @@ def one(res, d, kw, x, b, flag, cl):
         return
     if got != (not errs):
         res.fail(("is_valid-vs-iter_errors", kw), "%r %r" % (x, b))
+    if comp is not None:
+        # each keyword's own errors against exact arithmetic on its own bound
+        for k2, b2 in ((kw, b), (comp["keyword"], comp["bound"])):
+            want2 = expected(d, k2, x, b2, None)
+            got2 = not any(e.validator == k2 for e in errs)
+            if got2 != want2:
+                res.fail(("verdict-next-to-companion", k2, "impl-accepts" if got2 else "impl-rejects"),
+                         "draft %d schema=%s instance=%r: exact arithmetic says %s is %s" % (
+                             d, impl.cj(schema), x, k2, "satisfied" if want2 else "violated"))
+        return
     mult = kw in ("multipleOf", "divisibleBy")
     if mult and not spec.mult_in_exact_domain(x, b):
         res.labels.append("mult:outside-exact-domain(no-raise only)")
@@ -197,14 +221,14 @@ class C09(Prop):
             "magnitude classes (small, around 2**53 / 2**63, 10**300..10**2000, floats over the whole exponent range "
             "incl. subnormals, neighbours within one ulp / one unit); multipleOf pairs are constructed inside the "
             "exact sub-domain (power-of-two divisor, integer divisor, dyadic rationals, integer/integer, overflowing "
-            "quotient) or free.  Oracle: Fraction arithmetic; outside the exact sub-domain only 'no exception'.  Plus "
+            "quotient) or free; in drafts 6/7 a quarter of the comparison cases carry a second, independent bound keyword and each keyword's own errors are judged.  Oracle: Fraction arithmetic; outside the exact sub-domain only 'no exception'.  Plus "
             "the complete product of a 60-number pool x pool x keywords x drafts x flags.  Non-trivial: an operand "
             "is non-integer or beyond 2**53, or the operands are within one unit of each other.")
     ASSUMPTIONS = ["fractions.Fraction arithmetic is exact", "integers are bounded by 2100 digits",
                    "the exact sub-domain predicate is pbt.oracle.spec.mult_in_exact_domain (from the statement)"]
     GATES = {"cmp:pass": 2000, "cmp:fail": 2000, "mult:multiple": 500, "mult:not-multiple": 500,
              "mult:in-domain:pow2": 200, "mult:in-domain:dyadic": 200, "mult:in-domain:int-divisor": 200,
-             "mult:in-domain:overflow": 100, "mult:outside-exact-domain(no-raise only)": 100}
+             "mult:in-domain:overflow": 100, "mult:outside-exact-domain(no-raise only)": 100, "companion": 1000}
     MIN_NONTRIVIAL = 5000
 
     def strategy(self, tier):
@@ -218,7 +242,7 @@ class C09(Prop):
             if isinstance(v, bool) or not isinstance(v, (int, float)) or (isinstance(v, float) and not math.isfinite(v)):
                 res.excluded = "not-a-finite-number"
                 return res
-        one(res, case["draft"], case["keyword"], x, b, case.get("flag"), case.get("class", "?"))
+        one(res, case["draft"], case["keyword"], x, b, case.get("flag"), case.get("class", "?"), case.get("companion"))
         res.nontrivial = nontrivial(x, b)
         return res
 
